@@ -8,9 +8,9 @@ import (
 	"github.com/ethereum/go-ethereum/common"
 
 	stakingcontract "github.com/teleport-network/teleport/syscontracts/staking"
-	"tsim/node"
 	clienttypes "github.com/teleport-network/teleport/x/xibc/core/client/types"
 	packettypes "github.com/teleport-network/teleport/x/xibc/core/packet/types"
+	"tsim/node"
 )
 
 var stakingABI = stakingcontract.StakingContract.ABI
@@ -344,7 +344,6 @@ func (w *world) isRelayer(addr string) bool {
 	}
 	return false
 }
-
 
 // checkProofGround: the light client of chain c for chain src accepted proofHeight itself, and src's
 // committed store at that version holds `want` under `key`.
